@@ -1,6 +1,7 @@
 //! Printer from GenAST to concrete syntax, inserting parentheses by the grammar's precedence,
 //! recording the span table (statements, identifier occurrences, binders).
 
+use oal_model::lexicon::Lexeme;
 use super::ast::*;
 use crate::util::Rng;
 use std::ops::Range;
@@ -53,6 +54,8 @@ pub struct Printer<'a> {
     occs: Vec<Occ>,
     trivia: Option<&'a mut Rng>,
     at_line_start: bool,
+    /// no blank where two tokens cannot run together: `wrap@item`, `f(x)`, `{'a num,'b str}`
+    pub tight: bool,
 }
 
 fn yaml_quote(s: &str) -> String {
@@ -102,17 +105,25 @@ impl<'a> Printer<'a> {
             occs: Vec::new(),
             trivia,
             at_line_start: true,
+            tight: false,
         }
     }
 
-    fn sep(&mut self) {
+    fn sep(&mut self, next: &str) {
         if self.out.is_empty() {
             return;
         }
         match self.trivia.as_mut() {
             None => {
                 if !self.at_line_start {
-                    self.out.push(' ');
+                    let prev = self.out.chars().last().unwrap_or(' ');
+                    let glue = self.tight
+                        && ((next.starts_with('@') && (prev.is_ascii_alphanumeric() || prev == '_'))
+                            || matches!(next, ")" | "}" | "]" | "," | ";")
+                            || matches!(prev, '(' | '{' | '['));
+                    if !glue {
+                        self.out.push(' ');
+                    }
                 }
             }
             Some(r) => {
@@ -138,7 +149,7 @@ impl<'a> Printer<'a> {
 
     /// Emits one token preceded by a separator; returns its byte range.
     fn tok(&mut self, s: &str) -> Range<usize> {
-        self.sep();
+        self.sep(s);
         let start = self.out.len();
         self.out.push_str(s);
         self.at_line_start = s.ends_with('\n');
@@ -389,9 +400,18 @@ pub fn print_program_mutant(p: &Program) -> Vec<PrintedModule> {
     (0..p.modules.len()).map(|m| print_module_opts(p, m, None, true)).collect()
 }
 
+fn print_module_tight(p: &Program, m: usize) -> PrintedModule {
+    print_module_full(p, m, None, false, true)
+}
+
 pub fn print_module_opts(p: &Program, m: usize, trivia: Option<&mut Rng>, bare_unary_args: bool) -> PrintedModule {
+    print_module_full(p, m, trivia, bare_unary_args, false)
+}
+
+fn print_module_full(p: &Program, m: usize, trivia: Option<&mut Rng>, bare_unary_args: bool, tight: bool) -> PrintedModule {
     let mut pr = Printer::new(trivia);
     pr.bare_unary_args = bare_unary_args;
+    pr.tight = tight;
     let mut stmts = Vec::new();
     let mut decl_ranges = Vec::new();
     for (si, s) in p.modules[m].stmts.iter().enumerate() {
@@ -469,6 +489,37 @@ pub fn print_module_opts(p: &Program, m: usize, trivia: Option<&mut Rng>, bare_u
 
 pub fn print_program(p: &Program) -> Vec<PrintedModule> {
     (0..p.modules.len()).map(|m| print_module(p, m, None)).collect()
+}
+
+/// Prints with as few blanks as the printer dares (see `Printer::tight`); a module whose tight text does not lex into
+/// the same tokens as its ordinary text is printed the ordinary way.
+pub fn print_program_tight(p: &Program) -> Vec<PrintedModule> {
+    let toks = |t: &str| -> Vec<String> {
+        let loc = oal_model::locator::Locator::try_from("file:///m.oal").unwrap();
+        let (list, _) = oal_syntax::lexer::tokenize(loc, t);
+        let mut out = Vec::new();
+        if let Some(list) = list {
+            let mut c = list.head();
+            while c.is_valid() {
+                let (tok, span) = list.token_span(c);
+                if !tok.kind().is_trivia() {
+                    out.push(t[span.start()..span.end()].to_owned());
+                }
+                c = list.advance(c);
+            }
+        }
+        out
+    };
+    (0..p.modules.len())
+        .map(|m| {
+            let plain = print_module_opts(p, m, None, false);
+            let mut pr_tight = print_module_tight(p, m);
+            if toks(&plain.text) != toks(&pr_tight.text) {
+                pr_tight = plain;
+            }
+            pr_tight
+        })
+        .collect()
 }
 
 pub fn print_program_trivia(p: &Program, rng: &mut Rng) -> Vec<PrintedModule> {
